@@ -68,11 +68,11 @@ def gen_calib(rng, tier):
     cyc = rng.random() < .2          # long chordless cycles / grid: cascaded fill-in edges of the triangulation
     if kind == "bn":
         if cyc:
-            case = gen.rand_bn(rng, nmin=6, nmax=8, maxcard=2, name_kind=rng.choice(["str", "word", "int"]), mincard=2, shape="ring",
+            case = gen.rand_bn(rng, nmin=6, nmax=8, maxcard=2, name_kind=rng.choice(["str", "word", "int", "int0"]), mincard=2, shape="ring",
                                dup=False)
         else:
             for _ in range(30):
-                case = gen.rand_bn(rng, nmin=2, nmax=5, maxcard=3, name_kind=rng.choice(["str", "word", "int"]), mincard=2)
+                case = gen.rand_bn(rng, nmin=2, nmax=5, maxcard=3, name_kind=rng.choice(["str", "word", "int", "int0"]), mincard=2)
                 from harness.props.c03 import connected
                 if connected(len(case["nodes"]), case["edges"]):
                     break
